@@ -243,11 +243,21 @@ impl<OutL: ExchangeData, OutR: ExchangeData> BinaryStartReceiver<OutL, OutR> {
             } else {
                 Side::Left(self.left.recv(timeout))
             }
-        } else if self.left.cached && self.left.cache_full && !self.left.cache_finished() {
-            // The left side is cached, therefore we can access it immediately
+        } else if self.left.cached
+            && self.left.cache_full
+            && !self.left.cache_finished()
+            && self.right.missing_terminate == self.right.instances
+        {
+            // The left side is cached, therefore we can access it immediately (unless the other
+            // side already started terminating: the stream is over, there is no new iteration)
             return Ok(self.left.next_cached_item());
-        } else if self.right.cached && self.right.cache_full && !self.right.cache_finished() {
-            // The right side is cached, therefore we can access it immediately
+        } else if self.right.cached
+            && self.right.cache_full
+            && !self.right.cache_finished()
+            && self.left.missing_terminate == self.left.instances
+        {
+            // The right side is cached, therefore we can access it immediately (unless the other
+            // side already started terminating: the stream is over, there is no new iteration)
             return Ok(self.right.next_cached_item());
         } else if self.left.is_ended() {
             // There is nothing more to read from the left side (if cached, all the cache has
